@@ -64,6 +64,11 @@ def ts_jobs(tier):
         for w in range(mx):
             out.append((dict(base, name="c10-retire-max{0}min{1}-idle{2}".format(mx, mn, w), prefix=[("until", 1 + w, {"label": "Queue.get"})]),
                         dict(full, depth=full["depth"] + 2)))
+    # start() racing with an enqueue from another thread: never a worker too many, and the task is served
+    for mx, mn in [(1, 0), (1, 1), (2, 0), (2, 1), (2, 2)]:
+        base = {"max": mx, "min": mn, "tasks": ["ret"], "clients": [["start"], ["enq0", "await0"]], "W": mx + 2,
+                "props": ["exactly_once", "bounded", "nodeadlock"], "window_at": 0, "hold": [1], "twin_prog": "progress"}
+        out.append((dict(base, name="c10-start-race-max{0}min{1}".format(mx, mn)), dict(full, depth=full["depth"] + 2)))
     # at least min_threads workers from start() to stop()
     for mx, mn in [(1, 1), (2, 1), (2, 2)]:
         ops = ["start", "enq0", "await0", "stop"]
